@@ -26,8 +26,17 @@ THEOREMS = [
     "C09.candStep_disabled_noop",
     "C09.neg_search_facts_reachable",
     "C09.queryNeg_eq_fast",
+    # histories on one engine: knowledge-base edits, rebuild_index, set_config (RreModel/C09/Hist.lean)
+    "C09.rebuild_index_fresh",
+    "C09.engNew_fresh",
+    "C09.set_config_transparent",
+    "C09.kb_edit_keeps_index",
+    "C09.rebuild_fresh_noop",
+    "C09.replace_same_count_stale",
+    "C09.stale_candidate_noop",
+    "C09.livePos_missing",
 ]
-LEAN_TARGETS = ["RreModel.C09.Theorems", "RreModel.C09.ExtTheorems"]
+LEAN_TARGETS = ["RreModel.C09.Theorems", "RreModel.C09.ExtTheorems", "RreModel.C09.HistTheorems"]
 N = {"quick": 1500, "thorough": 20000}
 EXHAUSTIVE = {"quick": False, "thorough": False}
 RULE = ("cases = corpus (defect witnesses) + N generated problems (50% consistent-Horn KBs: one value per field, conjunctive "
@@ -55,6 +64,17 @@ RULE = ("cases = corpus (defect witnesses) + N generated problems (50% consisten
         "already holds, it would undo (Retract / second Set) what an enabled rule derived, and random Horn / chain / interference KBs with 1..3 random "
         "rules disabled; a quarter of them also as the NEGATED query; + N/10 negated-query problems `NOT <atom>` (see C10 part B (3); oracles (ii), "
         "(iii) and the model comparison only - clauses (i), (iv) are stated for atomic goals). "
+        "+ N/6 HISTORIES on ONE engine (5th token): between askings of a top-level goal the knowledge base is edited through "
+        "engine.knowledge_base() - the rule concluding the goal replaced under a new / the SAME name (rule count unchanged), enabled / "
+        "disabled in place, added, removed, the base cleared and refilled - and rebuild_index() is called (3 in 4) or not, set_config on "
+        "the way (1 in 4), engines built by with_config (memoisation off / on) and by BackwardEngine::new, the last query 1 in 4 through "
+        "explain_why; a third are random histories (3..8 random edit / rebuild / set_config / query steps, queries on other facts, for "
+        "other fields, negated) over generated KBs. EVERY query of a history is judged by the oracle clauses against the rule set, "
+        "configuration and facts as they are at that query ((iv), (iv-b) only when the index was built after the last edit); the model "
+        "(RreModel/C09/Hist.lean) carries the live rule list, the rule list the index was built from, and the memo cache. "
+        "+ N/40 single queries on engines built by BackwardEngine::new; + N/8 problems over KEYWORD-LIKE field names (vocabulary v1: NOTICE, "
+        "ORDER, ANDROID, trueCount, NOTE, nullable, inStock, NOTIFY.Sent, NOT.Q - names that start with / contain NOT, OR, AND, true, null, in), "
+        "each under EVERY strategy, 1 in 5 negated, 1 in 6 a history. "
         "Each case runs BackwardEngine::query on a fresh engine (real code); observed: provable, "
         "get_all_facts after, undo depth after (hook), #solutions. Oracles evaluated by the Lean driver on the implementation's "
         "observations, none of them running the search model: (i) provable => goal comparison true in the facts handed back; "
@@ -91,13 +111,18 @@ ASSUMPTIONS = [
 def agree(case, impl, model):
     if model == "many-orders":
         return True
-    return impl in [m.strip() for m in model.split("||")]
+    # a history: one observation / one set of admissible observations per query, joined by ` / `
+    im, mo = impl.split(" / "), model.split(" / ")
+    if len(im) != len(mo):
+        return False
+    return all(m.strip() == "many-orders" or i.strip() in [x.strip() for x in m.split("||")] for i, m in zip(im, mo))
 
 
 def classify(case, impl, model, oracle, kind):
     if kind == "oracle":
-        return "oracle:" + ":".join(oracle.replace("fail ", "").split())
-    return "diff:" + case.split()[0][0]
+        # `@<k>` (the failing query of a history) is not part of the signature
+        return "oracle:" + ":".join(t for t in oracle.replace("fail ", "").split() if not t.startswith("@"))
+    return "diff:" + case.split()[0][0] + (":history" if len(case.split()) == 5 else "")
 
 LEVEL_TEXT = ("Lean 4 theorems (kernel-checked, unbounded: every KB, store, goal, max_depth, candidate order and sub-goal candidate "
               "function) on an executable model of the backward search after fixes F-C09/F-C10a-c: search_facts_reachable (facts "
